@@ -22,4 +22,21 @@ theorem denoteF_sspec (alg : Ls.Alg) (p : Problem K) (c : Reg) (inp : Input) (c'
   · cases op <;> cases c' <;> simp [sspec, denoteF, directF, svexp, hn, ansOf, withAns]
   · cases op <;> cases c' <;> simp [sspec, denoteF, directF, svexp, hn, ansOf, withAns]
 
+/-! ### round 4 -/
+
+theorem factsF_inputOf (alg : Ls.Alg) (p : Problem K) : FactsF alg p (inputOf alg p) := ⟨rfl, rfl, fun _ => rfl⟩
+
+/-- chol / gso: with the facts of the problem, `directF` (algorithm of the kind, configuration of the state) is
+    `answerF` — a function of the problem, the caller's configuration and the query -/
+theorem directF_eq_answerF (k : Kind) (p : Problem K) (inp : Input) (hF : FactsF (algOf k) p inp) (s : FState) (op : Op) :
+    directF (algOf k) p (cfgReg s.useAll s.list) (inp.nullity != 0) (eff inp s) false op
+      = answerF (algOf k) p s.useAll s.list op := by
+  simp only [answerF, eff, hF.n, hF.nullity]
+
+theorem directF_eq_answerS (p : Problem K) (inp : Input) (hF : FactsF .svd p inp) (s : SState) (op : Op) :
+    directF .svd p (cfgReg (!s.sub) s.list) (inp.nullity != 0 && (seff s).isSome) ((seff s).getD []) true op
+      = answerS p s.sub s.list op := by
+  simp only [answerS, seff, hF.nullity]
+  cases s.sub <;> simp
+
 end Gama.C04.Full
